@@ -28,7 +28,7 @@ ASSUME = [
     "the closing delimiter line of a '---' block consists of dashes only (no trailing characters)",
 ]
 SHARDS = {"quick": 16, "thorough": 16}
-BUDGET_S = {"quick": 45, "thorough": 1200}
+BUDGET_S = {"quick": 60, "thorough": 1200}
 
 CLASSES: dict[str, type] = {}
 VOCAB: dict[str, dict] = {}
@@ -57,7 +57,7 @@ def collect_classes():
 
         tmp = tempfile.mkdtemp(prefix="c08_")
         with open(tmp + "/conf.py", "w") as f:
-            f.write("extensions=['myst_parser']\n")
+            f.write("extensions=['myst_parser', 'sphinx.ext.autodoc', 'sphinx.ext.autosummary', 'sphinx.ext.todo', 'sphinx.ext.ifconfig', 'sphinx.ext.doctest', 'sphinx.ext.graphviz', 'sphinx.ext.inheritance_diagram', 'sphinx.ext.mathjax']\n")
         with open(tmp + "/index.md", "w") as f:
             f.write("# t\n")
         with patch_docutils(tmp), docutils_namespace():
@@ -72,6 +72,30 @@ def collect_classes():
         shutil.rmtree(tmp, ignore_errors=True)
     except Exception as e:  # noqa: BLE001
         out["__sphinx_error__"] = repr(e)
+    # option specs that answer through __getitem__ / __missing__ rather than by holding keys (Sphinx' autodoc does this; third-party directives use defaultdict)
+    from collections import defaultdict
+
+    from docutils.parsers.rst import Directive
+    from docutils.parsers.rst import directives as DD
+
+    class _ConvertAll(Directive):
+        has_content = True
+        optional_arguments = 1
+        final_argument_whitespace = True
+        option_spec = defaultdict(lambda: DD.unchanged, {"width": DD.length_or_percentage_or_unitless, "flagged": DD.flag})
+
+    class _Missing(dict):
+        def __missing__(self, key):
+            if key.startswith("x-"):
+                return DD.unchanged_required
+            raise KeyError(key)
+
+    class _PrefixSpec(Directive):
+        has_content = True
+        option_spec = _Missing({"class": DD.class_option})
+
+    out["mv:convert-all"] = _ConvertAll
+    out["mv:prefix-spec"] = _PrefixSpec
     return out
 
 
@@ -131,7 +155,7 @@ def lines_for(key):
         out.append(f":{v['flag']}:")
     kk = v["valid"][0][0] if v["valid"] else "class"
     out += [f":{kk}: |", f":{kk}: >-", f"{kk}: |-", ":name: >"]  # (no keep-chomping '+': whether a blank line before the closing '---' belongs to the block is not something the property states)
-    out += [":nope: 1", "", "text", "---", "----", ":not option"]
+    out += [":nope: 1", ":x-opt: v", "", "text", "---", "----", ":not option"]
     return out
 
 
@@ -174,7 +198,9 @@ def model(cls, first, content, additional):
                 r.opt_lines, body, off = L[1:], [], len(L)
             else:
                 r.opt_lines, body, off = L[1:k], L[k + 1 :], k + 1
-            block = dedent("\n".join(r.opt_lines) + ("\n" if r.opt_lines else ""))
+            # between two delimiter lines every option line is a complete line; without a closing delimiter the block is the rest of the content as
+            # handed over (its last line carries no line break), which matters for a clipped block scalar in last position
+            block = dedent("\n".join(r.opt_lines) + ("\n" if r.opt_lines and k is not None else ""))
         elif content.lstrip().startswith(":"):
             j = 0
             while j < len(L) and L[j].lstrip().startswith(":"):
@@ -196,10 +222,11 @@ def model(cls, first, content, additional):
     if spec and not r.tokenize_failed:
         merged = {**(additional or {}), **raw}
         for name, value in merged.items():
-            if name not in spec:
+            try:
+                conv = spec[name]  # the directive's own lookup (docutils' rule): a spec may answer through __getitem__ / __missing__
+            except KeyError:
                 r.unknown.append(name)
                 continue
-            conv = spec[name]
             value = value or None
             if conv is flag:
                 value = None
@@ -515,9 +542,15 @@ def run_shard(ctx):
     rep_len = 4 if quick else 5
     idx = n = 0
     complete = True
+    seen_sig = set()
     for key in keys:
         voc = lines_for(key)
         maxlen = rep_len if key in REPRESENTATIVE else base_len
+        c_ = CLASSES[key]
+        sig = (tuple(sorted((str(k_), id(v_)) for k_, v_ in (c_.option_spec or {}).items())), type(c_.option_spec).__name__, c_.required_arguments, c_.optional_arguments, c_.final_argument_whitespace, c_.has_content)
+        if sig in seen_sig and key not in REPRESENTATIVE:
+            maxlen = min(maxlen, 2)  # a class that splits exactly like one already enumerated (same spec object contents, same argument declaration)
+        seen_sig.add(sig)
         for ln in range(0, maxlen + 1):
             for combo in itertools.product(range(len(voc)), repeat=ln):
                 idx += 1
@@ -529,7 +562,7 @@ def run_shard(ctx):
                     content = "\n".join(lines) + (tail if lines else "")
                     eval_split(ctx, {"kind": "split", "cls": key, "first": first, "content": content})
                     n += 1
-                if (n & 0xFFF) == 0 and ctx.out_of_time():
+                if (n & 0xFFF) == 0 and ctx.time_left() < ctx.budget_s * 0.4:  # the random phases below keep their share
                     complete = False
                     break
             if not complete:
@@ -574,7 +607,7 @@ def run_shard(ctx):
             ctx.count("with_additional_options")
         if i == 0:
             ctx.sample(case)
-        if (i & 0xFF) == 0 and ctx.out_of_time():
+        if (i & 0xFF) == 0 and ctx.time_left() < ctx.budget_s * 0.2:
             break
     # 2b. fence_as_directive end to end (attribute block -> additional options), all combinations
     if ctx.shard == 0:
